@@ -251,6 +251,22 @@ class C16(Check):
                     self.slice_ok[name] = False
                     self.violation("ocp.der of an expression of B-spline signals raised: %s" % str(ex)[:200], {"expr": e, "orders": orders}, {"kind": "signal-der-exception"})
                     return
+                # a derivative that does not exist: der applied order+1 times to a signal (alone, and inside an expression) must raise
+                for si, sg in enumerate(sigs):
+                    for wrap in (lambda v: v, lambda v: v ** 2 + ocp.t * v):
+                        dk = wrap(sg)
+                        raised = False
+                        try:
+                            for _k in range(orders[si] + 1):
+                                dk = ocp.der(dk)
+                        except Exception:
+                            raised = True
+                        self.count("signal-der-beyond-order")
+                        if not raised:
+                            self.slice_ok[name] = False
+                            self.violation("der applied %d times to a B-spline signal of order %d did not raise (no such derivative exists)" % (orders[si] + 1, orders[si]),
+                                           {"orders": orders, "signal": si}, {"kind": "signal-der-no-raise"})
+                            return
                 ocp.add_objective(ocp.sum(ca.sumsqr(sv) + ca.sumsqr(sp), include_last=True))
                 ocp.method(rockit.SplineMethod(N=N, grid=rockit.UniformGrid() if rng.random() < 0.5 else rockit.GeometricGrid(2)))
                 ocp.solver('ipopt', {'ipopt.print_level': 0, 'print_time': False, 'ipopt.max_iter': 0, 'ipopt.sb': 'yes'})
@@ -2052,7 +2068,7 @@ def gen_lq(rng, kinds=('ms', 'ss', 'dc', 'dc_dae')):
 class C19(Check):
     pid = "C19"
     level = "other"
-    slices = ["starting-data (max_iter=0)", "converged-results", "unlisted-keep-current"]
+    slices = ["starting-data (max_iter=0)", "converged-results", "unlisted-keep-current", "parameters-of-every-shape"]
 
     def explanation(self):
         return ("PARTIAL (solver is a black box). theorems: binding a list of (slot, value) arguments gives every slot of the parameter vector / starting "
@@ -2191,7 +2207,86 @@ class C19(Check):
                     return "result %d entry %d: function %r, imperative pipeline %r" % (i, j, x, y)
         return None
 
+    def matrix_parameter_slice(self):
+        """parameters of every shape as arguments — a vector, a MATRIX, a scalar — given to the function as one concatenation (ocp.p) or one
+        by one, and to the imperative pipeline through set_value on the concatenation or symbol by symbol: same results, and the values
+        in effect (ocp.value of each parameter) are the ones passed"""
+        import casadi as ca
+        import numpy as np
+        rockit = B.import_rockit()
+        name = "parameters-of-every-shape"
+        n = 4 if self.tier == 'quick' else 40
+        rng = self.rng
+        for it in range(n):
+            meth = ['ms', 'dc', 'ss'][it % 3]
+            fstyle = ['concat', 'symbols'][it % 2]
+            istyle = ['concat', 'symbols'][(it // 2) % 2]
+            N, M = rng.randint(2, 4), rng.randint(1, 2)
+            vals = [rng.randint(-4, 4) / 4.0 for _ in range(2)] + [0.0, -rng.randint(1, 8) / 4.0, 1.0, -rng.randint(0, 4) / 8.0] + [float(rng.randint(2, 20))]
+            info = {"method": meth, "N": N, "M": M, "function_arguments": fstyle, "imperative_calls": istyle, "values": vals}
+
+            def build():
+                ocp = rockit.Ocp(T=2)
+                x = ocp.state(2)
+                u = ocp.control()
+                x0 = ocp.parameter(2)
+                A = ocp.parameter(2, 2)
+                q = ocp.parameter()
+                ocp.set_der(x, ca.mtimes(A, x) + ca.vertcat(0, u))
+                ocp.add_objective(ocp.integral(ca.sumsqr(x) + u ** 2) + q * ocp.at_tf(x[0]) ** 2)
+                ocp.subject_to(ocp.at_t0(x) == x0)
+                ocp.subject_to(-1 <= (u <= 1))
+                ocp.solver('ipopt', {'ipopt.print_level': 0, 'print_time': False, 'ipopt.tol': 1e-10, 'ipopt.sb': 'yes'})
+                ocp.method({'ms': rockit.MultipleShooting(N=N, M=M, intg='rk'), 'ss': rockit.SingleShooting(N=N, M=M, intg='rk'),
+                            'dc': rockit.DirectCollocation(N=N, M=M, degree=2)}[meth])
+                ocp.set_value(x0, [1, 0]); ocp.set_value(A, np.array([[0, 1], [-1, 0]])); ocp.set_value(q, 1)
+                return ocp, x, u, x0, A, q
+            try:
+                with B.quiet():
+                    ocp, x, u, x0, A, q = build()
+                    res = [ocp.sample(x, grid='control')[1], ocp.sample(u, grid='control-')[1], ocp.value(x0), ca.vec(ocp.value(A)), ocp.value(q)]
+                    if fstyle == 'concat':
+                        f = ocp.to_function('f', [ocp.p], res)
+                        outF = f(ca.DM(vals))
+                    else:
+                        f = ocp.to_function('f', [x0, A, q], res)
+                        outF = f(ca.DM(vals[0:2]), ca.DM(vals[2:6]).reshape((2, 2)), vals[6])
+                    outF = [np.array(o).flatten(order='F') for o in outF]
+                    ocp2, x, u, x0, A, q = build()
+                    if istyle == 'concat':
+                        ocp2.set_value(ocp2.p, ca.DM(vals))
+                    else:
+                        ocp2.set_value(x0, ca.DM(vals[0:2])); ocp2.set_value(A, ca.DM(vals[2:6]).reshape((2, 2))); ocp2.set_value(q, vals[6])
+                    sol = ocp2.solve()
+                    xs = np.array(sol.sample(x, grid='control')[1])
+                    outI = [xs.reshape(xs.shape[0], -1).flatten(order='C'), np.array(sol.sample(u, grid='control-')[1]).flatten(),
+                            np.array(sol.value(x0)).flatten(), np.array(sol.value(A)).flatten(order='F'), np.array([float(sol.value(q))])]
+            except Exception as ex:
+                self.slice_ok[name] = False
+                self.violation("to_function / imperative pipeline with a matrix-valued parameter raised: %s: %s" % (type(ex).__name__, str(ex)[:300].replace("\n", " ")),
+                               {"case": info}, {"kind": "exception", "what": "matrix-parameter"})
+                return
+            self.evaluations += 1
+            self.signatures.add(repr((meth, N, M, fstyle, istyle)))
+            self.count("matrix-parameter:%s/%s" % (fstyle, istyle))
+            names = ["sampled states", "sampled controls", "value of the vector parameter", "value of the matrix parameter", "value of the scalar parameter"]
+            want = [None, None, vals[0:2], vals[2:6], [vals[6]]]
+            for nm, a, b_, w in zip(names, outF, outI, want):
+                bad = None
+                if len(a) != len(b_) or np.abs(a - b_).max() > 1e-6 * max(1.0, np.abs(a).max()):
+                    bad = "%s: function %s, imperative pipeline %s" % (nm, a.tolist(), b_.tolist())
+                elif w is not None and np.abs(b_ - np.array(w)).max() > 1e-12:
+                    bad = "%s in effect is %s, the value passed is %s" % (nm, b_.tolist(), w)
+                if bad:
+                    self.slice_ok[name] = False
+                    self.violation("parameters as %s to the function / %s to set_value: %s" % (fstyle, istyle, bad), {"case": info}, {"kind": "matrix-parameter", "imperative": istyle})
+                    return
+
     def correspondence(self):
+        self.lq_slices()
+        self.matrix_parameter_slice()
+
+    def lq_slices(self):
         n = 24 if self.tier == 'quick' else 240
         opts0 = {'ipopt.print_level': 0, 'print_time': False, 'ipopt.max_iter': 0, 'ipopt.sb': 'yes'}
         optsC = {'ipopt.print_level': 0, 'print_time': False, 'ipopt.tol': 1e-10, 'ipopt.sb': 'yes'}
@@ -3045,7 +3140,7 @@ class C03(Check):
                         self.violation(msg + " ; confirmed: " + msg2, dict(payload, errors=errs, errors_half_horizon=e2), feats)
                         return
 
-    def dc_flow(self, desc, x0, p, t0, T, M, degree, scheme):
+    def dc_flow(self, desc, x0, p, t0, T, M, degree, scheme, geometric=False):
         """state at t0+T and integral implied by DirectCollocation: solve the (square) collocation system"""
         import numpy as np
         rockit = B.import_rockit()
@@ -3058,7 +3153,11 @@ class C03(Check):
             for s, v in zip(b.states, x0):
                 o.subject_to(o.at_t0(s) == v)
             o.set_value(b.params[''][0], p)
-            o.method(rockit.DirectCollocation(N=1, M=M, degree=degree, scheme=scheme))
+            if geometric:
+                # two control intervals of unequal length: every interval must be integrated over ITS OWN times
+                o.method(rockit.DirectCollocation(N=2, M=M, degree=degree, scheme=scheme, grid=rockit.GeometricGrid(3)))
+            else:
+                o.method(rockit.DirectCollocation(N=1, M=M, degree=degree, scheme=scheme))
             o.solver('ipopt', {'ipopt.print_level': 0, 'print_time': False, 'ipopt.tol': 1e-13, 'ipopt.sb': 'yes', 'ipopt.max_iter': 200})
             for s, v in zip(b.states, x0):
                 o.set_initial(s, v)
@@ -3083,14 +3182,16 @@ class C03(Check):
             T = T * (2.0 if order >= 5 else 1.0)
             xr, qr = reference_flow(desc, x0, 0.0, p, t0, T)
             ex, eq = [], []
+            geometric = it % 2 == 1
             for M in (1, 2, 4, 8):
-                xf, qf = self.dc_flow(desc, x0, p, t0, T, M, degree, scheme)
+                xf, qf = self.dc_flow(desc, x0, p, t0, T, M, degree, scheme, geometric)
                 ex.append(float(np.max(np.abs(xf - xr))))
                 eq.append(abs(qf - qr))
             self.evaluations += 1
             self.signatures.add("dc-%d-%s-%d" % (degree, scheme, it))
             self.count("collocation:%s-%d" % (scheme, degree))
-            payload = {"desc": desc, "x0": x0, "p": p, "t0": t0, "T": T, "degree": degree, "scheme": scheme}
+            self.count("collocation-grid:%s" % ("geometric(N=2)" if geometric else "one interval"))
+            payload = {"desc": desc, "x0": x0, "p": p, "t0": t0, "T": T, "degree": degree, "scheme": scheme, "geometric": geometric}
             for errs, what in ((ex, "state transition"), (eq, "ocp.integral")):
                 feats = {"kind": "order", "scheme": "%s-%d" % (scheme, degree), "quantity": what}
                 msg = self.order_verdict(errs, order, "%s under DirectCollocation(degree=%d, scheme='%s')" % (what, degree, scheme), payload, feats, floor=1e-10)
@@ -3098,7 +3199,7 @@ class C03(Check):
                     # high-order schemes reach the asymptotic regime late: confirm on a four times finer sequence before reporting
                     e2 = []
                     for M in (4, 8, 16, 32):
-                        xf, qf = self.dc_flow(desc, x0, p, t0, T, M, degree, scheme)
+                        xf, qf = self.dc_flow(desc, x0, p, t0, T, M, degree, scheme, geometric)
                         e2.append(float(np.max(np.abs(xf - xr))) if what == "state transition" else abs(qf - qr))
                     msg2 = self.order_verdict(e2, order, "%s under DirectCollocation(degree=%d, scheme='%s'), M=4..32" % (what, degree, scheme), payload, feats, floor=1e-10)
                     if msg2:
